@@ -75,6 +75,8 @@ impl CaoLangAllocator {
         let s = l.size() + l.align();
         let allocated = s + self.allocated.fetch_add(s, Ordering::Relaxed);
         if allocated > self.limit.load(Ordering::Relaxed) {
+            // the request is refused: it must not stay charged
+            self.allocated.fetch_sub(s, Ordering::Relaxed);
             #[cfg(feature = "verif-hooks")]
             (*self.verif.get()).on_fail(l.size(), s, self.allocated.load(Ordering::Relaxed));
             return Err(AllocError::OutOfMemory);
